@@ -5,6 +5,8 @@ mod common;
 mod registry_seq;
 mod defaults;
 mod origin;
+mod sched;
+mod halflock;
 
 fn main() {
     let args: Vec<String> = std::env::args().collect();
@@ -13,6 +15,7 @@ fn main() {
         "registry" => registry_seq::main(),
         "defaults" => defaults::main(),
         "origin" => origin::main(),
+        "halflock" => halflock::main(),
         _ => {
             eprintln!("usage: harness <registry>");
             2
